@@ -34,7 +34,16 @@ fn source(r: &mut Rng, shape: u64) -> ModelTree {
         let cc = *r.pick(&[ContentClass::Random, ContentClass::Periodic, ContentClass::Holes]);
         Kind::File(Arc::new(gen_content(r, cc, len)))
     };
-    match shape % 3 {
+    match shape % 4 {
+        3 => {
+            // very wide: more than a thousand directories with distinct content, so that the tree walkers of prune,
+            // check and copy have (far) more trees pending than their queues and thread pools hold
+            for d in 0..1150 {
+                let len = 8 + r.usize_below(24);
+                let k = file(r, len);
+                m.insert(pk(&format!("w/d{d:04}/f")), Entry { kind: k, mode: 0o644, mtime: (1_650_000_300, 0), hardlink: None });
+            }
+        }
         0 => {
             // many small files in several directories: keeps the tree side busy
             for d in 0..6 {
